@@ -34,10 +34,13 @@ WEIGHTS = {"update_attrs": 1.5}
 
 
 def plan(tier, seed):
-    return common.session_plan(PROP, tier, seed, quick=160, thorough=3000)
+    # + the repository's own test-suite, unedited, as one more workload under the same monitor
+    return common.session_plan(PROP, tier, seed, quick=160, thorough=3000) + [common.pytest_spec()]
 
 
 def run_shard(spec):
+    if spec.get("kind") == "pytest":
+        return common.run_pytest_shard(spec, PROP)
     return common.run_sessions(spec, PROP, make_monitors, cfg_fn, nsteps=(8, 20),
                                weights=WEIGHTS, refusal_rate=0.3)
 
@@ -49,4 +52,6 @@ def floors(tier):
 
 
 def replay(doc):
+    if doc.get("kind") == "pytest":
+        return common.replay_pytest(doc, PROP)
     return common.replay_sessions(doc, make_monitors)
